@@ -12,11 +12,19 @@
 //   ops:    put h k v | del h k | get h k | has h k | it h prefix start
 //           bnew b h | bput b k v | bdel b k | bwrite b | breset b | brep b
 //           flush d | drop d | nfp d | snap h | sget i k | shas i k | sit i prefix start
-//           compact h start limit
+//           compact h start limit      (range recorded at the base, not forwarded)
+//           ecompact h start limit     (forwarded to the engine: observation E ok|err)
+//           reopen                     (engine bases: Close, reopen the same directory; skipped while
+//                                       snapshots or live iterators of this history are outstanding)
 //           lit id h prefix start | lnext id n | lrel id      (iterator kept alive across later ops)
 //   bytes:  hex, "-" = empty non-nil, "~" = nil (prefix/start/limit only), "*<n>*<hh>" = n copies of byte hh
 // Observations (flat token list): G <val|~> | H 0/1 | I n (k v)* | R n (P k v | D k)* | N n | C lo hi | X
-//   | L n (k v)* for lnext | ERR:<op> when the implementation returned an error.
+//   | L n (k v)* for lnext | ERR:<op> when the implementation returned an error
+//   | ALIAS:<op> when an operation wrote into (or around) a byte slice passed to it.
+// Every key / value / prefix / start / bound is handed to the store as a sub-slice of a larger
+// buffer (spare capacity filled with 0xEE); after the call the buffer must be unchanged, and it is
+// then overwritten, so a store that kept a reference to its argument is exposed as well.
+// Handles are created once per history and reused (sibling sub-tables of one parent coexist).
 package kvh
 
 import (
@@ -96,19 +104,34 @@ func OTok(b []byte) string {
 
 type recStore struct {
 	kvdb.Store
-	lo, hi []byte
+	lo, hi  []byte
+	forward bool
 }
 
 func (r *recStore) Compact(start []byte, limit []byte) error {
-	r.lo, r.hi = start, limit
+	if r.forward {
+		return r.Store.Compact(start, limit)
+	}
+	r.lo, r.hi = append([]byte(nil), start...), append([]byte(nil), limit...)
+	if start == nil {
+		r.lo = nil
+	} else if len(start) == 0 {
+		r.lo = []byte{}
+	}
+	if limit == nil {
+		r.hi = nil
+	} else if len(limit) == 0 {
+		r.hi = []byte{}
+	}
 	return nil
 }
 
 // ---------- persistent engines are reused across histories (opening pebble dominates) ----------
 
 type engine struct {
-	db  kvdb.Store
-	dir string
+	db   kvdb.Store
+	dir  string
+	dead bool // could not be reopened / closed cleanly: never reused
 }
 
 var (
@@ -143,13 +166,56 @@ func openEngine(kind string) *engine {
 	return &engine{db: db, dir: dir}
 }
 
+func openAt(kind, dir string) (kvdb.Store, error) {
+	switch kind {
+	case "ldb":
+		return leveldb.New(dir, 64*1024*1024, 0, nil, nil)
+	case "pbl":
+		return pebble.New(dir, 64*1024*1024, 0, nil, nil)
+	}
+	return nil, fmt.Errorf("bad engine kind %s", kind)
+}
+
+func (e *engine) reopen(kind string) (err error) {
+	defer func() {
+		if r := recover(); r != nil {
+			e.dead = true
+			err = fmt.Errorf("%v", r)
+		}
+	}()
+	if err = e.db.Close(); err != nil {
+		e.dead = true
+		return err
+	}
+	db, err := openAt(kind, e.dir)
+	if err != nil {
+		e.dead = true
+		return err
+	}
+	e.db = db
+	return nil
+}
+
 func (e *engine) close() {
-	_ = e.db.Close()
+	func() {
+		defer func() { _ = recover() }()
+		if !e.dead {
+			_ = e.db.Close()
+		}
+	}()
 	os.RemoveAll(e.dir)
 }
 
 // wipe deletes every key; returns false if the store is not empty afterwards.
-func (e *engine) wipe() bool {
+func (e *engine) wipe() (ok bool) {
+	defer func() {
+		if r := recover(); r != nil {
+			ok = false
+		}
+	}()
+	if e.dead {
+		return false
+	}
 	it := e.db.NewIterator(nil, nil)
 	var keys [][]byte
 	for it.Next() {
@@ -219,20 +285,24 @@ type Stack struct {
 	flus   map[int]flusher
 	rec    *recStore
 	eng    *engine
+	kind   string
 	fresh  bool
+	hcache map[string]kvdb.Store
 }
 
 func Build(header []string) *Stack {
-	s := &Stack{flus: map[int]flusher{}}
+	s := &Stack{flus: map[int]flusher{}, hcache: map[string]kvdb.Store{}}
 	var base kvdb.Store
 	switch header[0] {
 	case "mem":
 		base = memorydb.New()
 	case "ldb", "pbl":
 		s.eng = acquire(header[0])
+		s.kind = header[0]
 		base = s.eng.db
 	case "ldb!", "pbl!": // a fresh instance in its own temp dir, closed and removed after this history
 		s.eng = openEngine(header[0][:3])
+		s.kind = header[0][:3]
 		s.fresh = true
 		base = s.eng.db
 	default:
@@ -258,7 +328,7 @@ func Build(header []string) *Stack {
 			cur = synced.WrapStore(cur, new(sync.RWMutex)) // one mutex per synced layer (sharing one would self-deadlock)
 			flus = append(flus, nil)
 		case strings.HasPrefix(l, "t"):
-			cur = table.New(cur, Bytes(l[1:]))
+			cur = table.New(cur, spare(Bytes(l[1:])))
 			flus = append(flus, nil)
 		default:
 			panic("bad layer " + l)
@@ -286,21 +356,90 @@ func (s *Stack) Close() {
 	}
 }
 
-func (s *Stack) handle(tok string) kvdb.Store {
-	parts := strings.Split(tok, "/")
-	d, err := strconv.Atoi(parts[0])
-	if err != nil || d < 0 || d >= len(s.levels) {
-		panic("bad handle " + tok)
+// spare returns b as a slice with unused capacity behind it (an append on it writes in place).
+func spare(b []byte) []byte {
+	if b == nil {
+		return nil
 	}
-	cur := s.levels[d]
-	for i, p := range parts[1:] {
-		if i == 0 {
-			cur = table.New(cur, Bytes(p))
+	buf := make([]byte, len(b), len(b)+8)
+	copy(buf, b)
+	return buf
+}
+
+// handle resolves a handle token; the store object is created on first use and kept for the rest
+// of the history, a nested table is derived from its (kept) parent with NewTable.
+func (s *Stack) handle(tok string) kvdb.Store {
+	if h, ok := s.hcache[tok]; ok {
+		return h
+	}
+	i := strings.LastIndex(tok, "/")
+	var h kvdb.Store
+	if i < 0 {
+		d, err := strconv.Atoi(tok)
+		if err != nil || d < 0 || d >= len(s.levels) {
+			panic("bad handle " + tok)
+		}
+		h = s.levels[d]
+	} else {
+		parent := s.handle(tok[:i])
+		prefix := spare(Bytes(tok[i+1:]))
+		if t, ok := parent.(*table.Table); ok && strings.Contains(tok[:i], "/") {
+			h = t.NewTable(prefix)
 		} else {
-			cur = cur.(*table.Table).NewTable(Bytes(p))
+			h = table.New(parent, prefix)
 		}
 	}
-	return cur
+	s.hcache[tok] = h
+	return h
+}
+
+// guard hands out byte-string arguments as sub-slices of larger buffers and checks afterwards that
+// the callee left them alone.
+type guard struct {
+	buf  []byte
+	orig []byte
+}
+
+type guards struct{ gs []guard }
+
+func (g *guards) arg(tok string) []byte {
+	b := Bytes(tok)
+	if b == nil {
+		return nil
+	}
+	buf := make([]byte, len(b)+8)
+	copy(buf, b)
+	for i := len(b); i < len(buf); i++ {
+		buf[i] = 0xEE
+	}
+	g.gs = append(g.gs, guard{buf: buf, orig: append([]byte{}, b...)})
+	return buf[:len(b)]
+}
+
+// intact reports whether every buffer is unchanged.
+func (g *guards) intact() bool {
+	for _, x := range g.gs {
+		n := len(x.orig)
+		if string(x.buf[:n]) != string(x.orig) {
+			return false
+		}
+		for _, c := range x.buf[n:] {
+			if c != 0xEE {
+				return false
+			}
+		}
+	}
+	return true
+}
+
+// scribble overwrites the buffers (the callee must not depend on them any more) and forgets them.
+func (g *guards) scribble() {
+	for _, x := range g.gs {
+		for i := range x.buf {
+			x.buf[i] = 0xEE
+		}
+	}
+	g.gs = nil
 }
 
 type recorder struct{ out []string }
@@ -327,15 +466,32 @@ func drain(it kvdb.Iterator, max int) (out []string, n int, err error) {
 func (s *Stack) Run(ops [][]string, stat func(string)) (obs []string) {
 	// A batch slot remembers its handle and its operations so that the harness stays total on
 	// arbitrary (e.g. shrunk) histories: an unbound slot behaves as a batch on handle "0", and a
-	// batch touched again after Write without Reset is rebuilt from its recorded operations
-	// (pebble panics with "batch already applied" otherwise; generated histories always Reset).
+	// batch touched again after Write without Reset (or after an engine reopen) is rebuilt from
+	// its recorded operations (pebble panics with "batch already applied" otherwise; generated
+	// histories always Reset).
 	type bslot struct {
 		b       kvdb.Batch
 		h       string
 		ops     [][]string
 		written bool
+		stale   bool // the engine below was reopened: the batch object belongs to the closed instance
+	}
+	type liveIt struct {
+		it kvdb.Iterator
+		g  *guards
 	}
 	slots := map[string]*bslot{}
+	var snaps []kvdb.Snapshot
+	live := map[string]*liveIt{}
+	defer func() {
+		for _, l := range live {
+			l.it.Release()
+		}
+		for _, sn := range snaps {
+			sn.Release()
+		}
+	}()
+	var g guards
 	slot := func(id string, forWrite bool) *bslot {
 		sl := slots[id]
 		if sl == nil {
@@ -343,7 +499,7 @@ func (s *Stack) Run(ops [][]string, stat func(string)) (obs []string) {
 			sl.b = s.handle(sl.h).NewBatch()
 			slots[id] = sl
 		}
-		if forWrite && sl.written {
+		if (forWrite && sl.written) || sl.stale {
 			stat("batch_rebuilt")
 			sl.b = s.handle(sl.h).NewBatch()
 			for _, o := range sl.ops {
@@ -353,25 +509,29 @@ func (s *Stack) Run(ops [][]string, stat func(string)) (obs []string) {
 					_ = sl.b.Delete(Bytes(o[1]))
 				}
 			}
-			sl.written = false
+			sl.written, sl.stale = false, false
 		}
 		return sl
 	}
-	var snaps []kvdb.Snapshot
-	live := map[string]kvdb.Iterator{}
-	defer func() {
-		for _, it := range live {
-			it.Release()
-		}
-		for _, sn := range snaps {
-			sn.Release()
-		}
-	}()
 	fail := func(op string, err error) {
 		if err != nil {
 			obs = append(obs, "ERR:"+op)
 			stat("error")
 		}
+	}
+	// done checks the argument buffers of the operation just executed, then overwrites them
+	done := func(op string) {
+		if !g.intact() {
+			obs = append(obs, "ALIAS:"+op)
+			stat("alias")
+		}
+		g.scribble()
+	}
+	hasB := func(b bool) string {
+		if b {
+			return "1"
+		}
+		return "0"
 	}
 	for _, o := range ops {
 		if len(o) == 0 {
@@ -383,13 +543,16 @@ func (s *Stack) Run(ops [][]string, stat func(string)) (obs []string) {
 			if len(o[3]) > 0 && o[3][0] == '*' {
 				stat("put_big_value")
 			}
-			fail("put", s.handle(o[1]).Put(Bytes(o[2]), Bytes(o[3])))
+			fail("put", s.handle(o[1]).Put(g.arg(o[2]), g.arg(o[3])))
+			done("put")
 		case "del":
-			fail("del", s.handle(o[1]).Delete(Bytes(o[2])))
+			fail("del", s.handle(o[1]).Delete(g.arg(o[2])))
+			done("del")
 		case "get":
-			v, err := s.handle(o[1]).Get(Bytes(o[2]))
+			v, err := s.handle(o[1]).Get(g.arg(o[2]))
 			fail("get", err)
 			obs = append(obs, "G", OTok(v))
+			done("get")
 			if v != nil {
 				stat("get_found")
 				if len(v) == 0 {
@@ -397,20 +560,23 @@ func (s *Stack) Run(ops [][]string, stat func(string)) (obs []string) {
 				}
 			}
 		case "has":
-			b, err := s.handle(o[1]).Has(Bytes(o[2]))
+			b, err := s.handle(o[1]).Has(g.arg(o[2]))
 			fail("has", err)
-			if b {
-				obs = append(obs, "H", "1")
-			} else {
-				obs = append(obs, "H", "0")
-			}
+			obs = append(obs, "H", hasB(b))
+			done("has")
 		case "it":
-			it := s.handle(o[1]).NewIterator(Bytes(o[2]), Bytes(o[3]))
-			kv, n, err := drain(it, -1)
-			it.Release()
+			var kv []string
+			var n int
+			var err error
+			func() {
+				it := s.handle(o[1]).NewIterator(g.arg(o[2]), g.arg(o[3]))
+				defer it.Release() // also when draining panics: a leaked iterator blocks engine Close
+				kv, n, err = drain(it, -1)
+			}()
 			fail("it", err)
 			obs = append(obs, "I", strconv.Itoa(n))
 			obs = append(obs, kv...)
+			done("it")
 			if n > 0 {
 				stat("it_nonempty")
 			}
@@ -418,11 +584,13 @@ func (s *Stack) Run(ops [][]string, stat func(string)) (obs []string) {
 			slots[o[1]] = &bslot{b: s.handle(o[2]).NewBatch(), h: o[2]}
 		case "bput":
 			sl := slot(o[1], true)
-			fail("bput", sl.b.Put(Bytes(o[2]), Bytes(o[3])))
+			fail("bput", sl.b.Put(g.arg(o[2]), g.arg(o[3])))
+			done("bput")
 			sl.ops = append(sl.ops, []string{"P", o[2], o[3]})
 		case "bdel":
 			sl := slot(o[1], true)
-			fail("bdel", sl.b.Delete(Bytes(o[2])))
+			fail("bdel", sl.b.Delete(g.arg(o[2])))
+			done("bdel")
 			sl.ops = append(sl.ops, []string{"D", o[2]})
 		case "bwrite":
 			sl := slot(o[1], true)
@@ -434,14 +602,13 @@ func (s *Stack) Run(ops [][]string, stat func(string)) (obs []string) {
 			sl.ops, sl.written = nil, false
 		case "brep":
 			r := &recorder{}
-			fail("brep", slot(o[1], false).b.Replay(r))
+			fail("brep", slot(o[1], true).b.Replay(r))
 			n := 0
 			for _, t := range r.out {
-				if t == "P" || t == "D" {
+				if t == "P" || t == "D" { // keys and values are hex: never "P" / "D"
 					n++
 				}
 			}
-			// count ops, not tokens: P/D markers can also be... no: keys are hex, never "P"/"D"
 			obs = append(obs, "R", strconv.Itoa(n))
 			obs = append(obs, r.out...)
 		case "flush":
@@ -480,52 +647,91 @@ func (s *Stack) Run(ops [][]string, stat func(string)) (obs []string) {
 			sn := snaps[i]
 			switch o[0] {
 			case "sget":
-				v, err := sn.Get(Bytes(o[2]))
+				v, err := sn.Get(g.arg(o[2]))
 				fail("sget", err)
 				obs = append(obs, "G", OTok(v))
 			case "shas":
-				b, err := sn.Has(Bytes(o[2]))
+				b, err := sn.Has(g.arg(o[2]))
 				fail("shas", err)
-				if b {
-					obs = append(obs, "H", "1")
-				} else {
-					obs = append(obs, "H", "0")
-				}
+				obs = append(obs, "H", hasB(b))
 			case "sit":
-				it := sn.NewIterator(Bytes(o[2]), Bytes(o[3]))
-				kv, n, err := drain(it, -1)
-				it.Release()
+				var kv []string
+				var n int
+				var err error
+				func() {
+					it := sn.NewIterator(g.arg(o[2]), g.arg(o[3]))
+					defer it.Release()
+					kv, n, err = drain(it, -1)
+				}()
 				fail("sit", err)
 				obs = append(obs, "I", strconv.Itoa(n))
 				obs = append(obs, kv...)
 			}
+			done(o[0])
 		case "compact":
 			s.rec.lo, s.rec.hi = []byte("unset"), []byte("unset")
-			fail("compact", s.handle(o[1]).Compact(Bytes(o[2]), Bytes(o[3])))
+			fail("compact", s.handle(o[1]).Compact(g.arg(o[2]), g.arg(o[3])))
 			if string(s.rec.lo) == "unset" && string(s.rec.hi) == "unset" {
 				obs = append(obs, "C", "!", "!") // the request never reached the base
 			} else {
 				obs = append(obs, "C", OTok(s.rec.lo), OTok(s.rec.hi))
 			}
+			done("compact")
+		case "ecompact":
+			s.rec.forward = true
+			err := s.handle(o[1]).Compact(g.arg(o[2]), g.arg(o[3]))
+			s.rec.forward = false
+			if err != nil {
+				obs = append(obs, "E", "err")
+				stat("ecompact_err")
+			} else {
+				obs = append(obs, "E", "ok")
+			}
+			done("ecompact")
+		case "reopen":
+			if s.eng == nil || len(snaps) > 0 || len(live) > 0 {
+				stat("reopen_skipped")
+				break
+			}
+			if err := s.eng.reopen(s.kind); err != nil {
+				panic("reopen: " + err.Error())
+			}
+			s.rec.Store = s.eng.db
+			for _, sl := range slots { // engine batches of the closed instance are dead: rebuild lazily
+				sl.stale = true
+			}
+			stat("reopened")
 		case "lit":
 			if old := live[o[1]]; old != nil {
-				old.Release()
+				old.it.Release()
+				old.g.scribble()
 			}
-			live[o[1]] = s.handle(o[2]).NewIterator(Bytes(o[3]), Bytes(o[4]))
+			lg := &guards{}
+			it := s.handle(o[2]).NewIterator(lg.arg(o[3]), lg.arg(o[4]))
+			if !lg.intact() {
+				obs = append(obs, "ALIAS:lit")
+				stat("alias")
+			}
+			live[o[1]] = &liveIt{it: it, g: lg}
 		case "lnext":
-			it := live[o[1]]
-			if it == nil {
+			l := live[o[1]]
+			if l == nil {
 				obs = append(obs, "X")
 				break
 			}
 			max, _ := strconv.Atoi(o[2])
-			kv, n, err := drain(it, max)
+			kv, n, err := drain(l.it, max)
 			fail("lnext", err)
 			obs = append(obs, "L", strconv.Itoa(n))
 			obs = append(obs, kv...)
 		case "lrel":
-			if it := live[o[1]]; it != nil {
-				it.Release()
+			if l := live[o[1]]; l != nil {
+				l.it.Release()
+				if !l.g.intact() {
+					obs = append(obs, "ALIAS:lrel")
+					stat("alias")
+				}
+				l.g.scribble()
 				delete(live, o[1])
 			}
 		default:
